@@ -201,6 +201,7 @@ def run_kani(crate, scratch, h, prop, extra_args=(), tag="", extra_cfg=(), timeo
     env = dict(os.environ)
     env["RUSTFLAGS"] = " ".join(["--cfg", prop] + ["--cfg %s" % c for c in extra_cfg] + ["-A", "warnings"])
     env["CARGO_NET_OFFLINE"] = "true"
+    env["VERIF_TAB"] = str(int(os.environ.get("VERIF_SEED", "0") or 0) % 15)
     timeout = h.timeout * timeout_factor * (3 if os.environ.get("VERIF_SLOW") else 1)
     procs = []
     t0 = time.time()
@@ -411,6 +412,7 @@ def native_replay(scratch, prop, harness_name, vals, profiles=("dev", "release")
     for prof in profiles:
         env = dict(os.environ)
         env["RUSTFLAGS"] = "--cfg lru_mem_verif_replay --cfg %s -A warnings" % prop
+        env["VERIF_TAB"] = str(int(os.environ.get("VERIF_SEED", "0") or 0) % 15)
         env["CARGO_NET_OFFLINE"] = "true"
         env["CARGO_TARGET_DIR"] = str(scratch / "replay-target")
         cmd = ["cargo", "run", "-q", "--offline"] + (["--release"] if prof == "release" else []) + ["--", str(cex)]
